@@ -290,7 +290,7 @@ def r_accept(ctx, prog, codecs=(1, 2, 3)):
         maxn = _field_value(prog, f1, t1, info['struct'], 'max_nb_encoding_symbols')
         K = set([('cmp', 'uge', k, ('const', 1)), ('cmp', 'ugt', k, ('const', 0)), ('cmp', 'ule', k, maxk),
                  ('cmp', 'uge', r, ('const', 1)), ('cmp', 'ugt', r, ('const', 0)),
-                 ('cmp', 'ule', ('bin', 'add', k, r), maxn), ('cmp', 'ule', r, maxn),
+                 ('cmp', 'ule', ('bin', 'add', k, r), maxn), ('cmp', 'ule', ('bin', 'add', r, k), maxn), ('cmp', 'ule', r, maxn),
                  ('cmp', 'uge', ln, ('const', 1)), ('cmp', 'ugt', ln, ('const', 0))])
         assumes = [{}]
         if c == 2:
